@@ -47,8 +47,10 @@ class Mutex {
             if (hold_token_.equal(sch_.getToken())) //! 如果就是自己占用的，就直接返回
                 return true;
 
-            wait_tokens_.push(sch_.getToken());
+            //! 注意：被唤醒后锁可能又被别的协程（比如刚解锁的那个）抢先占用了，这时要重新排队再等。
+            //! 因为 unlock() 唤醒时已将本协程的 token 从 wait_tokens_ 中取出了
             do {
+                wait_tokens_.push(sch_.getToken());
                 sch_.wait();
                 if (sch_.isCanceled())
                     return false;
